@@ -291,3 +291,14 @@ Proof.
       replace ((pfx ++ join l' ++ [SLASH]) ++ x) with ((pfx ++ join l') ++ SLASH :: x) by (rewrite <- !app_assoc; reflexivity).
       rewrite dir_of_slash by exact Hx. unfold render. rewrite Epfx. reflexivity.
 Qed.
+
+(* push onto a non-empty accumulated path: no colon condition *)
+Lemma push_text_nonempty start0 ab fa v l seg : Rep ab v l -> l <> [] -> seg <> [] -> noslash seg ->
+  push start0 fa v seg = render ab (l ++ [seg]).
+Proof.
+  intros (-> & C & N) Hl Hs Hn. unfold push.
+  assert (Hns : nil_segs l = false) by (destruct l; [contradiction | reflexivity]).
+  rewrite (render_nil_iff ab l C), Hns, !andb_false_r. rewrite (render_empty_iff ab l C), Hns. cbn [andb].
+  rewrite (render_ends_dotslash ab l Hl (clean_noslash l C) (normal_no_dot ab l N)), andb_false_r.
+  symmetry. exact (render_snoc ab l seg Hl).
+Qed.
